@@ -6,6 +6,7 @@ import (
 	"fmt"
 	"os"
 	"path/filepath"
+	"runtime/debug"
 	"sort"
 	"strings"
 
@@ -91,6 +92,7 @@ type workerHello struct {
 
 // workerMain: load once, then serve jobs (one JSON object per line) until stdin closes.
 func workerMain(pkg string) {
+	debug.SetGCPercent(300) // the loaded SSA program is a large, static heap: collect less often
 	out := bufio.NewWriter(os.Stdout)
 	enc := json.NewEncoder(out)
 	s, err := loadSession(pkg)
